@@ -18,8 +18,8 @@ RULE = ("histories over the line universe {0,1,10,20,65528,65529} (plus numbers 
         "non-empty store; distinct = distinct histories")
 ASSUMPTIONS = ["stored lines are simple PRINT statements whose listed text equals the typed text"]
 EXHAUSTIVE = {"quick": False, "thorough": False}
-UNIVERSE = [0, 1, 10, 20, 65528, 65529]
-ENDPOINTS = [0, 1, 5, 10, 15, 20, 30, 65527, 65528, 65529]
+UNIVERSE = [0, 1, 10, 11, 19, 20, 65528, 65529]
+ENDPOINTS = [0, 1, 5, 10, 11, 15, 19, 20, 21, 30, 65527, 65528, 65529]
 MAXLN = 65529
 
 
@@ -119,15 +119,22 @@ def gen(tier, rng):
     # exhaustive over a reduced alphabet: seed store of three lines, then every pair of range operations
     seed = [("ins", 1), ("ins", 10), ("ins", 20), ("ins", 65529)]
     rops = [o for o in ops if o[0] in ("LIST", "DELETE")]
+    # the same over stores with adjacent line numbers (n, n+1) at the bottom, in the middle and at the top of the range:
+    # "one past the emitted line" and "the end of the range" coincide there
+    seed2 = [("ins", 0), ("ins", 1), ("ins", 10), ("ins", 65528), ("ins", 65529)]
+    seed3 = [("ins", 10), ("ins", 11), ("ins", 19), ("ins", 20), ("ins", 21)]
     for o in rops:
         hists.append(seed + [o, ("LIST", "")])
+        hists.append(seed2 + [o, ("LIST", "")])
+        hists.append(seed3 + [o, ("LIST", "")])
     if tier == "thorough":
         for o1 in rops:
             for o2 in rops:
                 hists.append(seed + [o1, o2, ("LIST", "")])
+                hists.append(seed2 + [o1, o2, ("LIST", "")])
     else:
         for _ in range(1500):
-            hists.append(seed + [rng.choice(rops), rng.choice(rops), ("LIST", "")])
+            hists.append(rng.choice([seed, seed2, seed3]) + [rng.choice(rops), rng.choice(rops), ("LIST", "")])
     for _ in range(600 if tier == "quick" else 20000):
         h = [rng.choice(ops) for _ in range(rng.randint(2, 9))]
         hists.append(h)
